@@ -822,7 +822,11 @@ func (x *Exec) builtinCall(st *State, b *ssa.Builtin, args []Val, ret ssa.Value,
 		// the variadic slice was built just before by the compiler: new [n]T + stores + slice
 		vs, ok := x.variadicElems(st, more)
 		if !ok {
-			unsupp("append of a non-literal slice")
+			// append(s, t...) with an arbitrary slice t: a fresh backing array holding s followed by t
+			out := st.sliceConcat(s, more)
+			out.Typ = ret.Type()
+			st.set(ret, out)
+			return
 		}
 		out := st.sliceAppend(s, vs)
 		out.Typ = ret.Type()
